@@ -6,6 +6,17 @@ ROOT = os.path.dirname(os.path.dirname(os.path.abspath(__file__)))
 sys.path.insert(0, os.path.join(ROOT, "tools"))
 from props import PROPS
 kf = json.load(open(os.path.join(ROOT, "known_findings.json")))
+print("### 11.2 Defects repaired in /repo (each a separate `fix:` commit; the model follows the repaired code)\n")
+print("| commit | property | what failed at the pinned commit |")
+print("|---|---|---|")
+seen = set()
+for f in kf["fixed"]:
+    m = re.match(r"fixed: property=(\S+) (\S+) (?:\(branch \S+\) )?(.*)", f)
+    if not m or (m.group(1), m.group(2)) in seen:
+        continue
+    seen.add((m.group(1), m.group(2)))
+    print("| %s | %s | %s |" % (m.group(2), m.group(1), m.group(3).replace("|", "\\|")))
+print()
 print("### 11.3 What each check proves and runs (from evidence/*.json of the last clean-tree run)\n")
 print("| Prop | theorems in Props/Cxx.v (all `Closed under the global context`) | partial / refuted | correspondence run (quick) | known findings |")
 print("|---|---|---|---|---|")
